@@ -52,6 +52,8 @@ func newScalarTable(inputSampleIDs []uint64, outputs []*model.Series, newAccumul
 
 func (t *scalarTable) aggregate(arg float64, vector model.StepVector) {
 	t.reset(arg)
+	// An empty output vector is stamped with its own step, too.
+	t.timestamp = vector.T
 
 	for i := range vector.Samples {
 		t.addSample(vector.T, vector.SampleIDs[i], vector.Samples[i])
